@@ -61,7 +61,7 @@ def main():
         out = subprocess.run(["git", "-C", "/repo", "log", "--format=%h %s"], capture_output=True, text=True).stdout
         for line in out.splitlines():
             h, _, subj = line.partition(" ")
-            if subj.startswith("verif:"):
+            if subj.startswith("verif:") or subj.startswith("verif hooks:"):
                 hooks_commits.append(h)
     except Exception:
         pass
